@@ -1204,6 +1204,8 @@ func runC01(e *Env) error {
 	// process-wide state that is not a pool: the attribute cache
 	c01AttrOrders(e)
 	c01SharedHandles(e)
+	c01LoaderAfterMiss(e)
+	matchesOracle(e, "theorem C01_history_independence (a pattern matched earlier, on any engine, does not change a later match; implementation-only oracle against package regexp)")
 	return nil
 }
 
